@@ -17,6 +17,7 @@ import numpy as np
 import pandas as pd
 
 ROOT = os.path.dirname(os.path.dirname(os.path.abspath(__file__)))
+OUT = os.environ.get("VERIF_OUT", ROOT)   # where replays/ are written
 
 
 class Bounded:
@@ -65,9 +66,9 @@ class Bounded:
         self.contracts[contract] = self.contracts.get(contract, 0) + 1
         if len(self.violations) >= self.max_violations:
             return
-        os.makedirs(os.path.join(ROOT, "replays", self.pid), exist_ok=True)
+        os.makedirs(os.path.join(OUT, "replays", self.pid), exist_ok=True)
         h = hashlib.md5(repr((contract, case)).encode()).hexdigest()[:10]
-        path = os.path.join(ROOT, "replays", self.pid, f"bounded-{contract}-{h}.json")
+        path = os.path.join(OUT, "replays", self.pid, f"bounded-{contract}-{h}.json")
         rec = {"property": self.pid, "bounded_case": True, "script": self.script, "contract": contract,
                "case": case, "observed": _short(observed, 1500), "expected": _short(expected, 1500),
                "signature": signature or contract,
